@@ -122,8 +122,15 @@ func runC15(c *Ctx) {
 	victim, _ := ast.Unparen(rm.Args[0]).(*ast.Ident)
 	// ---- C15.1
 	key := setF.Name + "|evict-only-clean"
+	// the victim search may live in a helper of its own (`cur := lru.oldestClean(); if cur == nil { refuse }`): the
+	// helper is judged by what it returns, and the caller by refusing on nil
+	helperVerdict, helperWhy := victimSearchHelper(setF, victim)
 	if victim == nil {
 		c.Undecided("C15.1", key, "victim is not a plain variable")
+	} else if helperVerdict == 1 {
+		c.OK("C15.1", key, rm.Pos(), 2, "the victim comes from %s", helperWhy)
+	} else if helperVerdict == 2 {
+		c.Undecided("C15.1", key, "the victim comes from a search helper the rule cannot read: %s", helperWhy)
 	} else {
 		reach, cached, tested := removeReachableWhenDirty(setF, g, setF.ObjOf(victim), rl)
 		switch {
@@ -285,7 +292,14 @@ func runC15(c *Ctx) {
 			}
 		}
 	}
-	c.Check(backOK && prevOK, "C15.3", key, setF.Decl.Pos(), "search starts at Back() and steps with Prev(); insertion is at the front", "the victim search does not run from the cold end (Back, Prev): the entry evicted is not the least recently used clean one")
+	if helperVerdict == 1 {
+		backOK, prevOK = true, true
+	}
+	if helperVerdict == 2 {
+		c.Undecided("C15.3", key, "the victim comes from a search helper the rule cannot read: %s", helperWhy)
+	} else {
+		c.Check(backOK && prevOK, "C15.3", key, setF.Decl.Pos(), "search starts at Back() and steps with Prev(); insertion is at the front", "the victim search does not run from the cold end (Back, Prev): the entry evicted is not the least recently used clean one")
+	}
 	// ---- C15.4
 	key = setF.Name + "|capacity"
 	pl, _ := g.Locate(push)
@@ -454,6 +468,7 @@ func runC16(c *Ctx) {
 	checkCodecPair(c, "C16.6", "storage.(*btreeNode).encodeLeaf", "storage.(*btreeNode).decodeLeaf")
 	checkCodecPair(c, "C16.6", "storage.(*btreeNode).encodeInternal", "storage.(*btreeNode).decodeInternal")
 	ruleDecodeSlotAgreement(c, "C16.7")
+	ruleAppendedPageDirty(c, "C16.13")
 	f := c.NeedFunc("C16.1", "storage.(*fileStore).fetch")
 	if f != nil {
 		g := f.Graph()
@@ -766,4 +781,204 @@ func isLenOperand(f *Func, sel *ast.SelectorExpr) bool {
 		return true
 	})
 	return found
+}
+
+// victimSearchHelper: 0 = the victim is not produced by a helper; 1 = it is, and the helper returns only elements whose
+// page it has just tested not to be dirty, searching from Back() with Prev(); 2 = it is, and that could not be read.
+func victimSearchHelper(setF *Func, victim *ast.Ident) (int, string) {
+	if victim == nil {
+		return 0, ""
+	}
+	var h *Func
+	for _, as := range setF.assignsTo(setF.Decl.Body, setF.ObjOf(victim)) {
+		if len(as.Rhs) != 1 {
+			continue
+		}
+		call, ok := ast.Unparen(as.Rhs[0]).(*ast.CallExpr)
+		if !ok {
+			continue
+		}
+		if callee := setF.Callee(call); callee != nil {
+			if hf := setF.w.FuncOf(callee); hf != nil && hf.Pkg == setF.Pkg {
+				if _, pinned := pinnedFuncs[hf.Name]; !pinned {
+					h = hf
+				}
+			}
+		}
+	}
+	if h == nil {
+		return victimByCopy(setF, victim)
+	}
+	name := h.Decl.Name.Name
+	back, prev, fwd := false, false, false
+	ast.Inspect(h.Decl.Body, func(x ast.Node) bool {
+		if call, ok := x.(*ast.CallExpr); ok {
+			if h.CallIs(call, "list.List.Back") {
+				back = true
+			}
+			if h.CallIs(call, "list.Element.Prev") {
+				prev = true
+			}
+			if h.CallIs(call, "list.List.Front", "list.Element.Next") {
+				fwd = true
+			}
+		}
+		return true
+	})
+	if !back || !prev || fwd {
+		return 2, name + " does not walk the list from Back() with Prev() only"
+	}
+	// every non-nil return sits in the then-branch of `if !<x>…isDirty()` about the returned element
+	ok := true
+	nret := 0
+	var stack []ast.Node
+	ast.Inspect(h.Decl.Body, func(x ast.Node) bool {
+		if x == nil {
+			stack = stack[:len(stack)-1]
+			return true
+		}
+		stack = append(stack, x)
+		ret, isRet := x.(*ast.ReturnStmt)
+		if !isRet || len(ret.Results) != 1 || isNilIdent(h, ret.Results[0]) {
+			return true
+		}
+		nret++
+		rid, isId := ast.Unparen(ret.Results[0]).(*ast.Ident)
+		guarded := false
+		for j := len(stack) - 2; j >= 0 && isId; j-- {
+			ifs, isIf := stack[j].(*ast.IfStmt)
+			if !isIf || j+1 >= len(stack) || stack[j+1] != ast.Node(ifs.Body) {
+				continue
+			}
+			if u, isNot := ast.Unparen(ifs.Cond).(*ast.UnaryExpr); isNot && u.Op == token.NOT {
+				k := exprKey(u.X)
+				if strings.HasPrefix(k, rid.Name+".Value") && strings.HasSuffix(k, ".isDirty()") {
+					guarded = true
+				}
+			}
+		}
+		if !guarded {
+			ok = false
+		}
+		return true
+	})
+	if !ok || nret == 0 {
+		return 2, name + " returns an element without having tested that its page is not dirty"
+	}
+	// the caller refuses when the helper found nothing
+	g := setF.Graph()
+	refuses := false
+	for _, b := range g.c.Blocks {
+		if !g.Reachable(b) || len(b.Succs) != 2 {
+			continue
+		}
+		for si := 0; si < 2; si++ {
+			if info, okE := g.EdgeInfo(b, si); okE && !info.Case {
+				if be, isBin := ast.Unparen(info.Cond).(*ast.BinaryExpr); isBin && isNilIdent(setF, be.Y) && exprKey(be.X) == victim.Name {
+					refuses = true
+				}
+			}
+		}
+	}
+	if !refuses {
+		return 2, "set does not test the result of " + name + " for nil"
+	}
+	return 1, name + ", which walks from Back() with Prev() and returns only an element whose page it has just found not dirty (nil otherwise, which set tests)"
+}
+
+// victimByCopy: the search loop runs over a variable of its own and hands the element it found to the victim variable
+// (`for c := l.Back(); c != nil; c = c.Prev() { if !c…isDirty() { victim = c; break } }` — the shape a search helper has
+// once it is written out at its call site). 1 = every non-nil value the victim receives is such a tested element and
+// the search variable walks from Back() with Prev(); 0 = the victim is not assigned by copy; 2 = by copy, unreadable.
+func victimByCopy(setF *Func, victim *ast.Ident) (int, string) {
+	vobj := setF.ObjOf(victim)
+	copies := 0
+	okAll := true
+	var src types.Object
+	var stack []ast.Node
+	ast.Inspect(setF.Decl.Body, func(x ast.Node) bool {
+		if x == nil {
+			stack = stack[:len(stack)-1]
+			return true
+		}
+		stack = append(stack, x)
+		as, isAs := x.(*ast.AssignStmt)
+		if !isAs || len(as.Lhs) != 1 || len(as.Rhs) != 1 {
+			return true
+		}
+		lid, isId := as.Lhs[0].(*ast.Ident)
+		if !isId || setF.ObjOf(lid) != vobj || isNilIdent(setF, as.Rhs[0]) {
+			return true
+		}
+		rid, isRid := ast.Unparen(as.Rhs[0]).(*ast.Ident)
+		if !isRid {
+			return true
+		}
+		if t := setF.TypeOf(rid); t == nil || !strings.HasSuffix(typeName(t), "list.Element") {
+			return true
+		}
+		copies++
+		src = setF.ObjOf(rid)
+		guarded := false
+		for j := len(stack) - 2; j >= 0; j-- {
+			ifs, isIf := stack[j].(*ast.IfStmt)
+			if !isIf {
+				continue
+			}
+			inThen := false
+			for k := j + 1; k < len(stack); k++ {
+				if stack[k] == ast.Node(ifs.Body) {
+					inThen = true
+				}
+			}
+			if !inThen {
+				continue
+			}
+			if u, isNot := ast.Unparen(ifs.Cond).(*ast.UnaryExpr); isNot && u.Op == token.NOT {
+				k := exprKey(u.X)
+				if strings.HasPrefix(k, rid.Name+".Value") && strings.HasSuffix(k, ".isDirty()") {
+					guarded = true
+				}
+			}
+		}
+		if !guarded {
+			okAll = false
+		}
+		return true
+	})
+	if copies == 0 {
+		return 0, ""
+	}
+	if !okAll {
+		return 2, "the victim receives an element whose page was not tested on that path"
+	}
+	back, prev := false, false
+	for _, as := range setF.assignsTo(setF.Decl.Body, src) {
+		if len(as.Rhs) != 1 {
+			continue
+		}
+		if call, ok := ast.Unparen(as.Rhs[0]).(*ast.CallExpr); ok {
+			if setF.CallIs(call, "list.List.Back") {
+				back = true
+			}
+			if setF.CallIs(call, "list.Element.Prev") {
+				prev = true
+			}
+			if setF.CallIs(call, "list.List.Front", "list.Element.Next") {
+				return 2, "the search variable moves towards the warm end"
+			}
+		}
+	}
+	if !back || !prev {
+		return 2, "the search variable does not walk from Back() with Prev()"
+	}
+	// direct (untested) non-nil assignments to the victim other than the copies?
+	for _, as := range setF.assignsTo(setF.Decl.Body, vobj) {
+		if len(as.Rhs) == 1 {
+			if _, isCall := ast.Unparen(as.Rhs[0]).(*ast.CallExpr); isCall {
+				return 2, "the victim is also assigned from a call"
+			}
+		}
+	}
+	return 1, "a search loop over " + src.Name() + " that walks from Back() with Prev() and hands over only an element whose page it has just found not dirty (nil otherwise)"
 }
